@@ -47,6 +47,10 @@ D = {
  'C14_3': ('C14', 'DeferredReader::advance stores the wrapped valid_len before the overflow check panics (re-introduces D2)', 'advance(n > buffered) caught with catch_unwind, then any accessor'),
  'C06_4': ('C06', 'binary Header::parse: `limit -= latch_count` removed (and-gate count checked against M - I)', 'binary header with latches and M-I-L < A <= M-I'),
  'C01_3': ('C01', 'aiger fixed_not_eol peeks buf().get(offset) instead of requesting the byte after the keyword', "C > 0, a comment section, and a read ending exactly after its 'c'"),
+ 'C03_5': ('C03', 'ascii write_header: optional B C J F counts kept only up to the first zero (take_while) instead of up to the last non-zero', 'an unused optional section before a used one (e.g. constraints without bad-state properties)'),
+ 'C06_5': ('C06', 'gcnf Parser::new: group limit installed iff clause_count != 0 (copy-paste slip for group_count)', 'header with clause count 0 and a non-zero group count; a clause in a group above it is accepted'),
+ 'C09_4': ('C09', 'btor2 ascii_lowercase_u64_cold: match guard keeps requesting all 8 offsets after the keyword ended (variant of C09_2)', 'line-by-line input and fewer than 8 bytes from the keyword to the end of the line'),
+ 'C04_4': ('C04', 'aiger eof(): check_io_error().is_ok() instead of io_error().is_none(): the parked error is consumed, the caller reports a syntax error', 'a source failing exactly where the file could legally end'),
  "C16_2": ("C16", "same change as C01_2 (newline CR look-ahead)", "read boundary between CR and LF"),
 }
 rows = []
